@@ -832,6 +832,41 @@ class SBytes:
                 return False
         return True
 
+    def _pruned(self):
+        """segments that are not provably empty under the current path condition"""
+        c = ctx()
+        out = []
+        for s in self.segs:
+            n = s.length()
+            if isinstance(n, int):
+                if n > 0:
+                    out.append(s)
+                continue
+            if c._check(n != 0) == z3.unsat:
+                continue
+            out.append(s)
+        return out
+
+    def prov_eq(self, o):
+        """provenance equality (same bytes by construction): after dropping segments that are provably
+        empty on this path both ropes must have the same shape; the result is the conjunction of the
+        offset/length equalities (a term, decided by the solver).  Concrete segments compare by value."""
+        o = SBytes.of(o)
+        a, b = self._pruned(), o._pruned()
+        if len(a) != len(b):
+            return False
+        conj = []
+        for x, y in zip(a, b):
+            if x.src is None or y.src is None:
+                if x.src is not None or y.src is not None or x.data != y.data:
+                    return False
+                continue
+            if x.src is not y.src:
+                return False
+            conj.append(tint(x.lo) == tint(y.lo))
+            conj.append(tint(x.n) == tint(y.n))
+        return mk_bool(z3.And(*conj)) if conj else True
+
     def __eq__(self, o):
         if not isinstance(o, (bytes, bytearray, SBytes)):
             return False
